@@ -162,4 +162,16 @@ example : readKind (.natural false) 3 false [1, 2, 3, 9] = .err 0 :=
   (natural_of_other_width_rejected false 3 false [1, 2, 3, 9] (by decide)).1
 example : ∃ a, readKind (.natural false) 2 false [1, 2, 3, 9] = .ok (.nat 258, [3, 9]) a := ⟨0, by simp [readKind, readNatLoop, natLenOk, readUintLoop, goInt, beDecMod]⟩
 
+/-- **A map entry whose KEY does not decode is an error of the map field** (repair F-13f; before it the
+    generated map decoder let the `ReadTLNum` that follows overwrite the key decoder's error and kept
+    the entry under a zero / partial key): whatever the key and value decoders are. -/
+theorem map_key_error_is_an_error (rk rv : Nat → Bool → Bytes → Res (Val × Bytes)) (vt l : Nat) (ic : Bool)
+    (rest : Bytes) (a : Nat) (h : rk l ic rest = .err a) :
+    readMap rk rv vt l ic rest = .err a := by
+  simp [readMap, h, Res.bind]
+
+example : readMap (readKind (.natural false)) (readKind .binary) 135 3 false [1, 2, 3, 135, 1, 9] = .err 0 :=
+  map_key_error_is_an_error _ _ 135 3 false _ 0
+    ((natural_of_other_width_rejected false 3 false _ (by decide)).1)
+
 end Ndn.C13
